@@ -30,8 +30,8 @@ EVIDENCE = os.environ.get("Y0SIM_EVIDENCE_DIR") or os.path.join(VERIF, "evidence
 
 TIERS = {
     # per property: scenarios per group and waves; group = 4 workers running the same scenario ids
-    "quick": {"C14": (900, 1), "C02": (500, 1), "C11": (2500, 1), "wall": 200, "min_runs": 300, "max_sigs": 4},
-    "thorough": {"C14": (4000, 6), "C02": (2200, 6), "C11": (30000, 6), "wall": 1500, "min_runs": 400, "max_sigs": 8},
+    "quick": {"C14": (900, 1), "C02": (220, 1), "C11": (2500, 1), "wall": 200, "min_runs": 300, "max_sigs": 4},
+    "thorough": {"C14": (4000, 6), "C02": (1000, 6), "C11": (30000, 6), "wall": 1500, "min_runs": 400, "max_sigs": 8},
 }
 GROUP = 4
 
@@ -347,7 +347,8 @@ def write_evidence(prop: str, tier: str, seed: int, t0: float, scen: dict, stats
             "line_events": agg.get("events", 0),
             "context_switches": agg.get("switches", 0),
         },
-        "faults_fired": agg.get("faults", {}),
+        "faults_fired": agg.get("faults", {}) if prop != "C11" else {
+            "hashseed": len(set(hashseeds)), "presentation(reorder/renest)": agg.get("presentations", 0)},
         "distinct_interleavings": len(inter),
         "interleaving_measure": "digest of the full recorded schedule (who ran, at which op and line each switch happened) of a population round with at least one switch inside an operation",
         "ops_executed": agg.get("ops", {}),
@@ -355,6 +356,9 @@ def write_evidence(prop: str, tier: str, seed: int, t0: float, scen: dict, stats
         "abort_sites_top": top(agg.get("abort_sites", {})),
         "y0_functions_entered_top": top(agg.get("calls", {}), 40),
         "probes": agg.get("probes", {}),
+        "id_algorithm_reach": {k: agg.get("calls", {}).get(k, 0) for k in
+                               ("identify", "line_1", "line_2", "line_3", "line_4", "line_7", "p_parents",
+                                "_get_single_district", "with_treatments", "from_parts")} if prop == "C02" else None,
         "extra": {k: v for k, v in agg.items() if k not in ("events", "switches", "faults", "ops", "switch_sites",
                                                               "abort_sites", "calls", "probes")},
         "violation_signatures": res.get("sigs", {}),
